@@ -515,3 +515,7 @@ META = {
     'technique': 'static analysis: row-wise abstract evaluation of the numpy tie mask over an enumerated vote domain, dominator checks of the vote update, exception-containment CFG check, exhaustive abstract-case evaluation of the pure arbitration helper',
     'design_ref': 'DESIGN.md section 5, C13',
 }
+
+
+from . import shared as _shared
+_shared.register('C13', 'C13')
